@@ -89,6 +89,16 @@ CLAIMED = {
         "assertions on.",
         "DESIGN.md section 4, C04",
     ),
+    "C08": (
+        "proptest random search, metamorphic oracle: two/three independently drawn spellings of one generated invocation must give equal ArgMatches (and equal the model's expectation); constructed ambiguous prefixes must never resolve; shrinking",
+        "One intended invocation is spelled twice with independent choices over the listed equivalences (= / separated / attached, "
+        "cluster / separate, alias / canonical, unambiguous prefix / full, delimiter-joined / separate) and a third time with an explicit "
+        "`--` placed anywhere inside a purely positional tail; all must parse Ok to == matches with identical Debug output, equal to the "
+        "expected observation. Separately, tokens that are proper prefixes of >= 2 arguments' longs / >= 2 subcommands (constructed) "
+        "must never parse Ok with one candidate chosen.",
+        "Only the equivalences the statement lists; flag-subcommand forms excluded (index base differs legitimately); trusted base as C02.",
+        "DESIGN.md section 4, C08",
+    ),
     "C11": (
         "proptest stateful testing: random histories of parse/build/render/clone steps on one Command value, differential oracle against a fresh definition per step, shrinking of the whole history",
         "For generated trees and a pool of argv sharing argv[0], histories of up to 12 steps (ParseMut, Build twice with Debug "
